@@ -57,8 +57,11 @@ func TestC08(t *testing.T) {
 		rapid.Check(t, func(rt *rapid.T) {
 			for k := 0; k < 6; k++ {
 				o := gen.Opts{SamePkg: rapid.IntRange(0, 3).Draw(rt, "samepkg") == 0, MaxFields: 3}
+				o.SourcesInConv = !o.SamePkg && rapid.IntRange(0, 2).Draw(rt, "sources-in-conv") == 0
 				b := gen.New(rt, o)
 				neg := eo
+				neg.Unexported = true
+				neg.NoUnexported = s.Open("F-ENUM-UNEXPORTED")
 				neg.Negative = rapid.IntRange(0, 3).Draw(rt, "negative") > 0
 				b.EnumProgram(neg)
 				b.EnumWrappers()
